@@ -42,9 +42,9 @@ func init() {
 		out.WriteString("]\n")
 
 		// inferPGVersion at its breakpoints (through ParseControlFile)
-		cvs := []uint32{0, 1, 959, 960, 961, 1001, 1002, 1003, 1099, 1100, 1101, 1200, 1201, 1202, 1299, 1300, 1301, 1700, 4294967295}
+		cvs := []uint32{0, 1, 959, 960, 961, 1001, 1002, 1003, 1099, 1100, 1101, 1200, 1201, 1202, 1299, 1300, 1301, 1699, 1700, 1701, 1800, 4294967295}
 		cats := []uint32{0, 201707211, 201809051, 201909211, 201909212, 201909213, 202007200, 202007201, 202007202, 202107180, 202107181, 202107182,
-			202209060, 202209061, 202209062, 202307070, 202307071, 202307072, 4294967295}
+			202209060, 202209061, 202209062, 202307070, 202307071, 202307072, 202406280, 202406281, 202406282, 202506291, 4294967295}
 		out.WriteString("/-- graph of inferPGVersion at its breakpoints: ((control version, catalog version), major) -/\ndef inferPGVersionGraph : List ((Nat × Nat) × Nat) := [\n")
 		first := true
 		for _, cv := range cvs {
